@@ -526,7 +526,19 @@ fn run_x(t: &[&str]) -> String {
     };
     let n: usize = t[5].parse().unwrap();
     let mut out = vec![];
+    // every second case runs with ANOTHER client alive in the process - other prefix, other default tags and container
+    // id, a sink that refuses every second metric, a handler of its own - which sends a metric of its own before each
+    // call of the case: clients share nothing
+    let decoy = if t[1..5].join(" ").bytes().fold(0u32, |a, b| a.wrapping_mul(33).wrapping_add(b as u32)) % 2 == 0 {
+        Some(build_client("6f746865722e", "k6f6b:6f76,v6f62617265", "6f636964", "a,r4.77,a,r9.78,a,r2.79,a,r5.80"))
+    } else {
+        None
+    };
     for i in 0..n {
+        if let Some(d) = &decoy {
+            d.client.gauge_with_tags("other.gauge", i as u64).with_tag("ot", "ov").with_timestamp(7).send();
+            let _ = d.client.count("other.count", -1);
+        }
         let f = &t[6 + 5 * i..11 + 5 * i];
         let form = parse_form(f[0]);
         let arg = parse_arg(f[2]);
